@@ -9,8 +9,8 @@ import (
 	"time"
 
 	"github.com/spq/pkappa2/internal/index/manager"
-	"github.com/spq/pkappa2/verif/oracle"
 	"github.com/spq/pkappa2/internal/query"
+	"github.com/spq/pkappa2/verif/oracle"
 	"github.com/spq/pkappa2/verif/sim"
 	"github.com/spq/pkappa2/verif/simrt"
 )
